@@ -20,7 +20,8 @@ from harness.vuni import things
 RULE = (
     'Generated: 2-3 thread programs drawn from a vocabulary (build of a nested config; edits '
     'inside and outside nested suspend_tracking; tag edits; deepcopy + ==; dump_json/load_json; '
-    'first-time fdl.Config of a callable created for this scenario and shared by the threads '
+    'first-time fdl.Config of a callable created for this scenario and shared by the threads, '
+    'also of a bound method in one thread and of the plain function it wraps in another '
     '(cold signature / type-hint caches); a failing build with an exception class created for '
     'this scenario; select/set) over disjoint configurations, and a schedule: up to 6 '
     'pre-emption points (thread, fraction of its own solo step count -- optionally snapped to '
@@ -45,7 +46,8 @@ BUDGET = {'quick': 16 * 120, 'thorough': 16 * 4000}
 FLOORS = {'preempted_in_shared_module': 0.3, 'preempted_in_build_or_suspend': 0.1}
 TIME_LIMIT = {'quick': 1200, 'thorough': 6 * 3600}
 
-PROGRAMS = ['build', 'edits', 'tags', 'deepcopy_eq', 'json', 'first_config', 'failing_build', 'select_set', 'build_list']
+PROGRAMS = ['build', 'edits', 'tags', 'deepcopy_eq', 'json', 'first_config', 'failing_build', 'select_set', 'build_list',
+            'method_config']
 SHARED_MODULES = ('history.py', 'building.py', 'signatures.py', 'reraised_exception.py', 'daglish.py', 'config.py')
 
 
@@ -70,10 +72,11 @@ def enumerate_cases(tier):
   """Systematic single pre-emptions: for fixed two-thread scenarios, pre-empt thread 0 at each
   k-th of its steps (quick: every 9th step of 4 scenarios; thorough: every step of 12)."""
   pairs = [('build', 'json'), ('edits', 'edits'), ('first_config', 'first_config'), ('failing_build', 'build_list'),
+           ('method_config', 'method_config'),
            ('tags', 'deepcopy_eq'), ('build_list', 'build'), ('json', 'select_set'), ('edits', 'first_config'),
            ('deepcopy_eq', 'json'), ('failing_build', 'failing_build'), ('build', 'build'), ('select_set', 'tags')]
   stride = 1 if tier == 'thorough' else 9
-  use = pairs if tier == 'thorough' else pairs[:4]
+  use = pairs if tier == 'thorough' else pairs[:5]
   for a, b in use:
     for k in range(1, 1500, stride):
       yield {'progs': [{'p': a, 'k': 1}, {'p': b, 'k': 2}], 'pre': [], 'single': k}
@@ -180,6 +183,19 @@ def make_program(spec, shared):
     return ('first_config', C.canon(cfg.__arguments__), C.canon(cfg2.__arguments__), str(sig),
             sorted(hints), str(signatures.get_signature(other)), _seqs([cfg, cfg2]))
 
+  def method_config():
+    # a bound method (even k) or the plain function it wraps with an explicit self (odd k), of a
+    # class shared by the threads of the scenario: first-time signature lookups of both
+    cls = shared['meth_cls']
+    if k % 2 == 0:
+      cfg = fdl.Config(cls(k).scale, 2, offset=k)
+    else:
+      cfg = fdl.Config(cls.scale, f'self{k}', 2, offset=k)
+    cfg2 = fdl.Config(cls.make, k)
+    sig = str(signatures.get_signature(cfg.__fn_or_cls__))
+    return ('method_config', C.canon(cfg.__arguments__), sig, C.canon(fdl.build(cfg)), C.canon(fdl.build(cfg2)),
+            _seqs([cfg, cfg2]))
+
   def failing_build():
     exc_cls = shared['exc_classes'][k % len(shared['exc_classes'])]
 
@@ -205,7 +221,7 @@ def make_program(spec, shared):
 
   return {'build': build, 'build_list': build_list, 'edits': edits, 'tags': tags,
           'deepcopy_eq': deepcopy_eq, 'json': json_, 'first_config': first_config,
-          'failing_build': failing_build, 'select_set': select_set}[p]
+          'failing_build': failing_build, 'select_set': select_set, 'method_config': method_config}[p]
 
 
 def make_shared(case_id):
@@ -223,7 +239,8 @@ def make_shared(case_id):
   class ScenarioError2(KeyError):
     pass
 
-  return {'fresh_fn': fresh_fn, 'fresh_fn2': fresh_fn2, 'exc_classes': [ScenarioError, ScenarioError2]}
+  return {'fresh_fn': fresh_fn, 'fresh_fn2': fresh_fn2, 'exc_classes': [ScenarioError, ScenarioError2],
+          'meth_cls': things.make_method_class()}
 
 
 def _strip_seq(res):
